@@ -16,7 +16,7 @@
     attr_tab_lf_cr_not_recovered text_cr_not_recovered decl_encoding_echoed
     parser_keeps_cdata_seam xml_roundtrip_adjacent_cdata merged_cdata_seam_not_wellformed
     parse_source_agrees empty_text_child_not_idempotent et_stream_builder_shaped
-    ser_idempotent_builder_source ser_idempotent_parsed_text_source
+    ser_idempotent_builder_source ser_idempotent_parsed_text_source parser_layer_stream_shape
 -/
 import Genshi.Lemmas.XmlRefs
 import Genshi.Lemmas.XmlFlatD
@@ -709,5 +709,22 @@ example :
 example : noStartEndX (emptyTag
     [.startNs [] ['u'], .start ⟨['u'], ['a']⟩ [], .startNs ['q'] ['v'], .start ⟨['v'], ['b']⟩ [], .end_ ⟨['v'], ['b']⟩,
      .endNs ['q'], .text ['t'] false, .end_ ⟨['u'], ['a']⟩, .endNs []]) = true := by decide
+
+/-- **What `XMLParser` delivers, whatever expat calls** (any callback sequence,
+    any entity table): no two TEXT events in a row, no `Markup` text (the
+    `noSafeText` clause of `inputTextOKm`), and the events other than TEXT are
+    exactly those the `_handle_*` callbacks enqueued, in order — `_coalesce`
+    touches character data only. -/
+theorem parser_layer_stream_shape (entity : Str → Option Char) (cbs : List Cb) :
+    NoAdjText (parseCbs entity cbs).1 ∧ (parseCbs entity cbs).1.all plainText = true ∧
+    nonText (parseCbs entity cbs).1 = nonText (runCbs entity cbs).1 :=
+  parseCbs_shape entity cbs
+
+/-- an undefined entity ends the parse after the events enqueued so far (`false`), a defined one becomes text
+    that is coalesced with its neighbours -/
+example :
+    parseCbs (fun n => if n = ['n','b','s','p'] then some (Char.ofNat 160) else none)
+      [.startEl ['a'] [], .data ['x'], .other ['&','n','b','s','p',';'], .data ['y'], .other ['&','z',';'], .data ['w']] =
+    ([.start ⟨[], ['a']⟩ [], .text ['x', Char.ofNat 160, 'y'] false], false) := by decide
 
 end Genshi.Props.C02
